@@ -45,6 +45,23 @@ Theorem C01_failed_never_reaches_upstream : forall en c l q,
 Proof. exact failed_never_reaches_upstream. Qed.
 Print Assumptions C01_failed_never_reaches_upstream.
 
+(** there is no third kind of answer: every request is answered either by a
+    non-success response without any upstream contact, or - a rule applied and its
+    pipeline completed - by exactly the positive answer (accepted status and no
+    upstream contact / the upstream's answer after exactly one forwarded request /
+    Envoy OK) *)
+Theorem C01_answer_dichotomy : forall en c l q,
+  (forall r, applied l r -> sane c r) -> overrides_not_success (c_respond c) ->
+  non_success (serve en c l q) \/
+  (exists r, applied l r /\ pipeline_succeeded r /\
+     serve en c l q = match en with
+                      | Decision => AHttp (accepted_code c) 0
+                      | Proxy => AHttp upstream_status 1
+                      | Envoy => AEnvoyOk
+                      end).
+Proof. exact answer_dichotomy. Qed.
+Print Assumptions C01_answer_dichotomy.
+
 (** no error pipeline, whatever its handlers, conditions and their outcomes,
     turns a failed pipeline into a positive answer *)
 Theorem C01_error_handler_cannot_rescue : forall en c r q ehs,
